@@ -1,3 +1,50 @@
-From PV Require Import Model.Kernels.
-Theorem placeholder : True. Proof. exact I. Qed.
-Print Assumptions placeholder.
+(* C15  Truncating a front keeps boundary points and prunes one at a time.  Statements only.
+   The split front is cut by a descending sort of its crowding values (an arbitrary, validated permutation: any
+   tie-break of pymoo's randomized argsort) and the first m positions are kept, m = quota - members already kept. *)
+From Coq Require Import List Bool Arith.
+From PV Require Import Base.Num Base.Res Base.ListX Model.Dominance Model.RankCrowd Proofs.RankCrowdP.
+Import ListNotations.
+
+(* every run of RankAndCrowding._do cuts its last front this way *)
+Theorem C15_cut_structure :
+  forall (N : num) (F : list (list N)) n s surv attrs s',
+    rnc_do F n s = Ok ((surv, attrs), s') -> n <= length F ->
+    exists fronts sel, is_ndsb F n fronts = true /\ surv = concat (removelast fronts) ++ sel /\
+                       cut_desc (N := N) (last fronts []) (n - length (concat (removelast fronts))) sel.
+Proof. exact @rnc_do_cut. Qed.
+Print Assumptions C15_cut_structure.
+
+(* boundary clause, for EVERY crowding metric (any crowding vector): a member of the cut front whose crowding
+   value is maximal (top = +inf) survives whenever at most m members have such a value.  Every built-in metric puts
+   +inf on a holder of the minimum and of the maximum of each objective, i.e. on at most 2*n_obj members (C13), so
+   the surviving part still attains all minima and maxima when m >= 2*n_obj. *)
+Theorem C15_infinite_members_survive :
+  forall (N : num) (ok : N -> Prop), ord_laws N ok ->
+  forall (front : list nat) m sel crowd perm sv top,
+    length crowd = length front -> length perm = length crowd -> NoDup perm -> Forall (fun i => i < length crowd) perm ->
+    pick crowd perm = Some sv -> sorted_by (N := N) true sv = true -> pick front (firstn m perm) = Some sel ->
+    Forall ok crowd -> ok top ->
+    length (filter (fun j => negb (ltb N (nth j crowd top) top)) (seq 0 (length crowd))) <= m ->
+    forall j x, nth_error front j = Some x -> ltb N (nth j crowd top) top = false -> In x sel.
+Proof. intros N ok L. exact (cut_keeps_top L). Qed.
+Print Assumptions C15_infinite_members_survive.
+
+(* one-shot metrics (cd, ce): the dropped members are those of smallest crowding value computed once:
+   every dropped position has a value <= every kept position, whatever the tie-break *)
+Theorem C15_dropped_have_smallest_crowding :
+  forall (N : num) (ok : N -> Prop), ord_laws N ok ->
+  forall (crowd : list N) perm sv m a b,
+    length perm = length crowd -> pick crowd perm = Some sv -> sorted_by (N := N) true sv = true -> Forall ok crowd ->
+    In a (firstn m perm) -> In b (skipn m perm) ->
+    exists va vb, nth_error crowd a = Some va /\ nth_error crowd b = Some vb /\ leb N vb va = true.
+Proof. intros N ok L. exact (cut_drops_smallest L). Qed.
+Print Assumptions C15_dropped_have_smallest_crowding.
+
+(* non-vacuity: a front of 5 cut to 4: the two infinite members and the two largest finite ones stay *)
+From Coq Require Import QArith.
+From PV Require Import Base.NumQ.
+Example C15_nonvacuous :
+  rnc_do (N := Qn) [[0; 4]; [1; 3]; [2; 2]; [3; 1]; [4; 0]]%Q 4
+    [@ONds Qn 4 [[0; 1; 2; 3; 4]]%nat; @OCrowd Qn 1 [100; 2; 1; 3; 100]%Q; @OSort Qn true [4; 0; 3; 1; 2]%nat]
+  = Ok (([4; 0; 3; 1]%nat, [(0, 0, 100%Q); (1, 0, 2%Q); (2, 0, 1%Q); (3, 0, 3%Q); (4, 0, 100%Q)]%nat), []).
+Proof. vm_compute. reflexivity. Qed.
